@@ -8,6 +8,10 @@ over every sequence of Project / ProjectValues calls (`Reachable`, `Later`).
 -/
 import Proofs.Lemmas.C08Inv
 import Proofs.Lemmas.C08Excl
+import Proofs.Lemmas.C08Perm
+import Proofs.Lemmas.C08Loss
+import Proofs.C05
+import Proofs.Lemmas.C08Val
 
 namespace C08
 open Proc.Sort Proc.Projection Proc.Extract
@@ -170,15 +174,10 @@ theorem key_eq_iff_stream (h : List Bytes → UInt64) (p₀ : Proj) (hr : Reacha
 
 /-! ### Get returns what was put into the row -/
 
-/-- **get_is_extracted_partial**: the key returned by `Project` gives, for EVERY field index,
-exactly the value the projection closures wrote into the row buffer for this result (missing =
-""): nothing is lost or altered by trimming, hashing, bucket search or node reuse. What is
-not covered by this theorem: that the closures write, at the index of field `f`, the value of
-`f`'s extractor (`Proc.Extract.extract` / `fullNameExcluding` / the file-config value) — the
-closures ARE calls of those model functions (`runPart`), but the theorem that no other closure
-overwrites the same index is not proved; it is checked by the correspondence run (observable
-`get`) and by the specification oracle on every case. -/
-theorem get_is_extracted_partial (h : List Bytes → UInt64) (env : Env) (p : Proj) (r : Res) (f : Field) :
+/-- **get_is_row**: the key returned by `Project` gives, for EVERY field index, exactly the value
+the projection closures left in the row buffer for this result (missing = ""): nothing is lost or
+altered by trimming, hashing, bucket search or node reuse. -/
+theorem get_is_row (h : List Bytes → UInt64) (env : Env) (p : Proj) (r : Res) (f : Field) :
     (p.project h env r).1.get (p.project h env r).2 f = getVal (p.populateRow env r).row f.idx := by
   obtain ⟨_, _, _, _, _, _, _, hv⟩ := internRow_spec h (p.populateRow env r)
   unfold Proj.get Proj.project
@@ -215,9 +214,77 @@ theorem get_is_extracted_single (h : List Bytes → UInt64) (env : Env) (pa pa' 
           simp only [Prod.mk.injEq, Except.ok.injEq] at hm
           obtain ⟨_, rfl⟩ := hm
           refine ⟨mkField sp.key 0 sp.order, by simp [Proj.flat, Proj.addRootField, newProjection, Top.flat], rfl, ?_⟩
-          rw [get_is_extracted_partial]
+          rw [get_is_row]
           simp [Proj.populateRow, Proj.addRootField, newProjection, runPart, mkField, getVal]
           cases extract sp.key r.view <;> rfl
+
+/-- **get_is_extracted**: in every reachable state, the key returned by `Project` gives for EACH
+flattened field of the projection (as it is after the call) exactly the value that field's extractor
+extracts from the result:
+* a field named by a specific key: `newExtractor(key)(result)`;
+* `.fullname`: the name with the parser's excluded keys removed (`newExtractorFullName(exclude)`);
+* a sub-field of a `.config` group (named by a file key): the value of the result's (last) File
+  entry with that key, "" when there is none;
+* `.unit`: "" (`Project` leaves it empty).
+Every field falls under exactly one closure: each row index is written by one closure only
+(`OInv`: leaf indices are distinct and never group indices; sub-fields of a group get fresh
+indices; see Proofs/Lemmas/C08Own.lean, C08Val.lean). For every hash function and parser state. -/
+theorem get_is_extracted (h : List Bytes → UInt64) (env : Env) (p : Proj) (r : Res) (hr : Reachable h p) :
+    ∀ f ∈ (p.project h env r).1.flat,
+      (Part.key f.name f.idx ∈ (p.project h env r).1.parts ∧
+        (p.project h env r).1.get (p.project h env r).2 f = extractD f.name r) ∨
+      (Part.fullname f.idx ∈ (p.project h env r).1.parts ∧ f.name = dotFullname ∧
+        (p.project h env r).1.get (p.project h env r).2 f = fullNameExcluding env.exclude r.name) ∨
+      (∃ pos o, Part.config pos o ∈ (p.project h env r).1.parts ∧
+        f ∈ groupSubs (p.project h env r).1.top pos ∧
+        (p.project h env r).1.get (p.project h env r).2 f = fileValOf f.name r.config []) ∨
+      ((p.project h env r).1.unitIdx = some f.idx ∧ f.name = dotUnit ∧
+        (p.project h env r).1.get (p.project h env r).2 f = []) := by
+  intro f' hf'
+  have hi := reachable_inv h p hr
+  have ho := reachable_oinv h p hr
+  obtain ⟨f1, e1⟩ := populateRow_good env p r hi.f
+  obtain ⟨o1, _⟩ := populateRow_own env p r hi.f ho
+  obtain ⟨v1, v2, v3⟩ := populateRow_values env p r hi.f ho
+  obtain ⟨_, _, hparts, hu, ⟨g, hg, hflat, htop⟩, _, _, _⟩ := internRow_spec h (p.populateRow env r)
+  have hget : ∀ f : Field, (p.project h env r).1.get (p.project h env r).2 f =
+      getVal (p.populateRow env r).row f.idx := get_is_row h env p r
+  change f' ∈ ((p.populateRow env r).internRow h).1.flat at hf'
+  rw [hflat] at hf'
+  obtain ⟨f, hf, rfl⟩ := List.mem_map.mp hf'
+  rw [hget, (hg f).1, (hg f).2.1]
+  change _ ∨ _ ∨ (∃ pos o, _ ∈ ((p.populateRow env r).internRow h).1.parts ∧
+    _ ∈ groupSubs ((p.populateRow env r).internRow h).1.top pos ∧ _) ∨
+    (((p.populateRow env r).internRow h).1.unitIdx = _ ∧ _)
+  show (Part.key f.name f.idx ∈ ((p.populateRow env r).internRow h).1.parts ∧ _) ∨
+    (Part.fullname f.idx ∈ ((p.populateRow env r).internRow h).1.parts ∧ _) ∨ _ ∨ _
+  rw [hparts, hu, htop]
+  cases o1.owner f hf with
+  | key h1 =>
+    refine Or.inl ⟨h1, ?_⟩
+    exact v1 _ (by rw [← e1.parts]; exact h1) f.idx rfl
+  | fullname h1 h2 =>
+    refine Or.inr (Or.inl ⟨h1, h2, ?_⟩)
+    exact v1 _ (by rw [← e1.parts]; exact h1) f.idx rfl
+  | config pos o h1 h2 =>
+    refine Or.inr (Or.inr (Or.inl ⟨pos, o, h1, ?_, ?_⟩))
+    · rw [groupSubs_mapFields]; exact List.mem_map_of_mem h2
+    · exact v2 pos o (by rw [← e1.parts]; exact h1) f h2
+  | unit h1 h2 =>
+    refine Or.inr (Or.inr (Or.inr ⟨h1, h2, ?_⟩))
+    exact v3 f.idx (by rw [← e1.unitIdx]; exact h1)
+
+/-- The fields of a `.config` group after projecting a result: every File key of the result that
+is not a specific key of the parser (as the closure sees it now) has its sub-field, and every
+sub-field created by this call is such a key. -/
+theorem config_group_fields (h : List Bytes → UInt64) (env : Env) (p : Proj) (r : Res) (hr : Reachable h p)
+    (pos : Nat) (o : Order) (hp : Part.config pos o ∈ p.parts) :
+    (∀ c ∈ r.config, c.2.2 = true → env.configKeys.contains c.1 = false →
+      ∃ f ∈ groupSubs (p.populateRow env r).top pos, f.name = c.1) ∧
+    (∀ f ∈ groupSubs (p.populateRow env r).top pos,
+      f ∈ groupSubs p.top pos ∨
+      (env.configKeys.contains f.name = false ∧ ∃ c ∈ r.config, c.2.2 = true ∧ c.1 = f.name)) :=
+  populateRow_group env p r (reachable_inv h p hr).f (reachable_oinv h p hr) pos o hp
 
 /-! ### ProjectValues -/
 
@@ -245,6 +312,110 @@ theorem project_values_only_unit (h : List Bytes → UInt64) (p : Proj) (ui : Na
   · simp [hf, hui, List.getD_eq_getElem?_getD, List.getElem?_set]
   · have : ¬ ui = f.idx := fun e => hf e.symm
     simp [hf, this, List.getD_eq_getElem?_getD, List.getElem?_set]
+
+theorem projectUnits_slice (h : List Bytes → UInt64) (ui : Nat) (us : List Bytes) (p : Proj)
+    (hui : ui < p.row.length) :
+    (projectUnits h ui p us).2.length = us.length ∧
+    ∀ j, j < us.length → ∀ f : Field,
+      (projectUnits h ui p us).2.getD j 0 < (projectUnits h ui p us).1.nodes.length ∧
+      (projectUnits h ui p us).1.get ((projectUnits h ui p us).2.getD j 0) f =
+        if f.idx = ui then us.getD j [] else getVal p.row f.idx := by
+  induction us generalizing p with
+  | nil => exact ⟨rfl, fun j hj => absurd hj (by simp)⟩
+  | cons u rest ih =>
+    simp only [projectUnits]
+    obtain ⟨hrow, _, _, _, _, _, hk, _⟩ := internRow_spec h { p with row := p.row.set ui u }
+    have hui1 : ui < ({ p with row := p.row.set ui u }.internRow h).1.row.length := by
+      rw [hrow]; simpa using hui
+    obtain ⟨ih1, ih2⟩ := ih ({ p with row := p.row.set ui u }.internRow h).1 hui1
+    refine ⟨by simp [ih1], ?_⟩
+    intro j hj f
+    cases j with
+    | zero =>
+      obtain ⟨extra, hext⟩ := projectUnits_nodes h ui rest ({ p with row := p.row.set ui u }.internRow h).1
+      have hk' : ({ p with row := p.row.set ui u }.internRow h).2 <
+          (projectUnits h ui ({ p with row := p.row.set ui u }.internRow h).1 rest).1.nodes.length := by
+        rw [hext]; simp; omega
+      refine ⟨by simpa using hk', ?_⟩
+      have hstable : (projectUnits h ui ({ p with row := p.row.set ui u }.internRow h).1 rest).1.vals
+          ({ p with row := p.row.set ui u }.internRow h).2 =
+          ({ p with row := p.row.set ui u }.internRow h).1.vals ({ p with row := p.row.set ui u }.internRow h).2 := by
+        rw [vals_eq_getElem _ _ hk', vals_eq_getElem _ _ hk]
+        simp [hext, List.getElem_append_left hk]
+      have hone := project_values_only_unit h p ui u hui f
+      simp only [List.getD_cons_zero]
+      unfold Proj.get at hone ⊢
+      rw [hstable]
+      exact hone
+    | succ j' =>
+      have hj' : j' < rest.length := by simpa using hj
+      obtain ⟨a, b⟩ := ih2 j' hj' f
+      simp only [List.getD_cons_succ]
+      refine ⟨a, ?_⟩
+      rw [b, hrow]
+      by_cases hf : f.idx = ui
+      · simp [hf]
+      · simp only [hf, if_false]
+        exact getVal_set_ne _ _ _ _ (fun e => hf e.symm)
+
+/-- **project_values_slice**: for a projection with a `.unit` field, `ProjectValues` returns one
+key per measurement, in order; the j-th key has the j-th measurement's unit in the `.unit` field
+and in every other field exactly the value `Project` gives for the result (the populated row; see
+`get_is_extracted`). -/
+theorem project_values_slice (h : List Bytes → UInt64) (env : Env) (p : Proj) (r : Res)
+    (hr : Reachable h p) (ui : Nat) (hu : p.unitIdx = some ui) :
+    (p.projectValues h env r).2.length = r.units.length ∧
+    ∀ j, j < r.units.length → ∀ f : Field,
+      (p.projectValues h env r).2.getD j 0 < (p.projectValues h env r).1.nodes.length ∧
+      (p.projectValues h env r).1.get ((p.projectValues h env r).2.getD j 0) f =
+        if f.idx = ui then r.units.getD j [] else getVal (p.populateRow env r).row f.idx := by
+  have hi := reachable_inv h p hr
+  have ho := reachable_oinv h p hr
+  obtain ⟨f1, e1⟩ := populateRow_good env p r hi.f
+  have hu1 : (p.populateRow env r).unitIdx = some ui := by rw [e1.unitIdx]; exact hu
+  have hlt : ui < (p.populateRow env r).row.length := by
+    rw [f1.rowLen]
+    exact Nat.lt_of_lt_of_le (ho.unitOK ui hu).1 e1.nFields
+  unfold Proj.projectValues
+  simp only [hu1]
+  exact projectUnits_slice h ui r.units (p.populateRow env r) hlt
+
+/-- The keys of one result's measurements differ exactly where the units differ. -/
+theorem project_values_keys_eq_iff (h : List Bytes → UInt64) (env : Env) (p : Proj) (r : Res)
+    (hr : Reachable h p) (ui : Nat) (hu : p.unitIdx = some ui) (i j : Nat)
+    (hi' : i < r.units.length) (hj : j < r.units.length) :
+    (p.projectValues h env r).2.getD i 0 = (p.projectValues h env r).2.getD j 0 ↔
+      r.units.getD i [] = r.units.getD j [] := by
+  obtain ⟨_, hs⟩ := project_values_slice h env p r hr ui hu
+  have hrq : Reachable h (p.projectValues h env r).1 := Reachable.projectValues p env r hr
+  have hiq := reachable_inv h _ hrq
+  have hoq := reachable_oinv h _ hrq
+  rw [key_eq_iff h _ hrq _ _ (hs i hi' default).1 (hs j hj default).1]
+  constructor
+  · intro hall
+    -- the `.unit` field is a flattened field
+    have huq : (p.projectValues h env r).1.unitIdx = some ui := by
+      have hi0 := reachable_inv h p hr
+      obtain ⟨_, e1⟩ := populateRow_good env p r hi0.f
+      unfold Proj.projectValues
+      simp only [e1.unitIdx ▸ hu]
+      have : ∀ (us : List Bytes) (q : Proj), (projectUnits h ui q us).1.unitIdx = q.unitIdx := by
+        intro us
+        induction us with
+        | nil => intro q; rfl
+        | cons u rest ih =>
+          intro q
+          simp only [projectUnits]
+          rw [ih]
+          obtain ⟨_, _, _, hq, _⟩ := internRow_spec h { q with row := q.row.set ui u }
+          exact hq
+      rw [this, e1.unitIdx, hu]
+    obtain ⟨f, hf, hfi⟩ := hiq.f.cover ui (hoq.unitOK ui huq).1
+    have := hall f hf
+    rw [(hs i hi' f).2, (hs j hj f).2] at this
+    simpa [hfi] using this
+  · intro he f _
+    rw [(hs i hi' f).2, (hs j hj f).2, he]
 
 /-! ### NonSingularFields -/
 
@@ -289,16 +460,10 @@ theorem fullExcluded_perm_invariant (ex ex' : List Bytes) (hp : ex.Perm ex') (na
     fullNameExcluding ex name = fullNameExcluding ex' name :=
   fullNameExcluding_perm ex ex' hp name
 
-/-- **exclusion_order_independent_partial**: projecting a result gives the same projection state
-(group fields, rows, nodes, order maps) and the same key under any two parser states that have
-the same SET of specific config keys and the same MULTISET of specific name keys — which is how
-the parser states reached by two different orders of the same `Parse` calls are related (the
-closures read the parser state at projection time, after all parsing). For every hash function.
-Not proved in Lean (the gap): that `Parse` accumulates `configKeys` as a set-insert and
-`fullnameKeys` as an append, so that permuting the calls permutes/preserves them in this sense;
-this is two lines of `makeProjection` and is exercised by the correspondence run and the
-specification oracle on all permutations of up to 4 expressions per case. -/
-theorem exclusion_order_independent_partial (h : List Bytes → UInt64) (e e' : Env) (he : EnvEq e e')
+/-- **exclusion_env_congruence**: projecting a result gives the same projection state (group
+fields, rows, nodes, order maps) and the same key under any two parser states that have the same
+SET of specific config keys and the same MULTISET of specific name keys. For every hash function. -/
+theorem exclusion_env_congruence (h : List Bytes → UInt64) (e e' : Env) (he : EnvEq e e')
     (p : Proj) (r : Res) :
     p.project h e r = p.project h e' r ∧ p.projectValues h e r = p.projectValues h e' r := by
   unfold Proj.project Proj.projectValues
@@ -310,5 +475,368 @@ example : EnvEq { configKeys := [[97], [98]], exclude := [[47, 120], [47, 121]] 
   refine ⟨fun k => ?_, List.Perm.swap _ _ _⟩
   simp only [List.contains_iff_mem, List.mem_cons, List.not_mem_nil, or_false]
   by_cases h1 : k = [97] <;> by_cases h2 : k = [98] <;> simp [h1, h2]
+
+/-- **exclusion_order_independent**: take any parser (that has not projected yet) and any two
+orders `es`, `es'` of the same `Parse`/`ParseWithUnit` calls (failing calls included: their side
+effects are part of the model). Then
+(a) every expression yields the same projection wherever in the sequence it is parsed;
+(b) `Residue` yields the same projection after either order;
+(c) every projection behaves identically after either order, on every stream of `Project` /
+    `ProjectValues` calls: same final state (group fields, nodes, order maps) and same keys;
+(d) what is excluded is exactly the specific keys of all expressions: a key is in `configKeys`
+    iff some executed part names it as a config key (`config_group_fields`: such keys never become
+    `.config` sub-fields), and `fullnameKeys` is, up to order, the list of all name keys named
+    (`fullExcluded_perm_invariant`: the order does not matter for `.fullname`).
+For every hash function. -/
+theorem exclusion_order_independent (h : List Bytes → UInt64) (pa : Parser) (hfresh : pa.fullExt = none)
+    (es es' : List (Bool × List Spec)) (hp : es.Perm es') :
+    (∀ e pa₁ pa₂, (parseExpr pa₁ e).2 = (parseExpr pa₂ e).2) ∧
+    ((parserAfter pa es).residue).2 = ((parserAfter pa es').residue).2 ∧
+    (∀ p ops, runOps h (envOf (parserAfter pa es)) p ops = runOps h (envOf (parserAfter pa es')) p ops) ∧
+    (∀ k, k ∈ (parserAfter pa es).configKeys ↔
+      k ∈ pa.configKeys ∨ ∃ sp ∈ es.flatMap (fun e => execSpecs e.2), cfgKeyOf sp = some k) ∧
+    (parserAfter pa es).fullnameKeys =
+      pa.fullnameKeys ++ (es.flatMap fun e => execSpecs e.2).flatMap nameKeyOf := by
+  obtain ⟨henv, hc, hf⟩ := parserAfter_perm pa hfresh es es' hp
+  obtain ⟨o1, o2, _, _, _⟩ := parserAfter_obs pa es
+  exact ⟨fun e pa₁ pa₂ => parseExpr_proj pa₁ pa₂ e, residue_proj_congr _ _ hc hf,
+    fun p ops => runOps_congr h _ _ henv ops p, o1, o2⟩
+
+example : (parserAfter Parser.new [(false, [{ key := [97], order := .first }, { key := [47, 120], order := .alpha }]),
+    (true, [{ key := [46, 99, 111, 110, 102, 105, 103], order := .first }])]).configKeys = [[97]] := by
+  decide +kernel
+
+/-! ### Projections plus residue lose nothing -/
+
+/-- **lossless** (general form). Let `ps` be projections that are only used under one parser state
+`env` (all projecting after all parsing), among them one with `.config` and one with `.fullname`
+(the residue supplies whichever group no expression named). Two results get the same key in
+EVERY one of them iff
+* every individually projected key extracts the same value from both (name keys, file keys, and
+  internal keys such as `.file` alike),
+* their file configurations agree on every key that is not individually projected (as maps,
+  missing = ""), and
+* their names agree once the individually projected name keys are removed.
+Hypotheses the proof forces: (1) one fixed `env` for all projections and all calls (`ReachableE`) —
+with parsing interleaved between projections a `.config` group may hold a key that was excluded
+later, and the statement fails (see `lossless_interleaved_counterexample`); (2) coverage (`hC`,
+`hF`). No hypothesis on the names is needed for THIS statement, because "the value of a
+sub-name key" is what the extractor returns (first `/k=` part); that this is the whole of the
+information under the key needs distinct sub-name keys (`lossless_needs_distinct_subnames`). -/
+theorem lossless (h : List Bytes → UInt64) (env : Env) (ps : List Proj)
+    (hps : ∀ p ∈ ps, ReachableE h env p)
+    (hC : ∃ p ∈ ps, ∃ pos o, Part.config pos o ∈ p.parts)
+    (hF : ∃ p ∈ ps, ∃ i, Part.fullname i ∈ p.parts) (r r' : Res) :
+    (∀ p ∈ ps, agree h env p r r') ↔
+      (∀ p ∈ ps, ∀ k i, Part.key k i ∈ p.parts → extractD k r = extractD k r') ∧
+      (∀ c, env.configKeys.contains c = false → fileValOf c r.config [] = fileValOf c r'.config []) ∧
+      fullNameExcluding env.exclude r.name = fullNameExcluding env.exclude r'.name := by
+  have hiff : ∀ p ∈ ps, _ := fun p hp =>
+    agree_iff h env p r r' (reachable_inv h p (reachableE_reachable h env p (hps p hp)))
+      (reachable_oinv h p (reachableE_reachable h env p (hps p hp))) (reachableE_noExcl h env p (hps p hp))
+  constructor
+  · intro hall
+    refine ⟨fun p hp k i hk => ((hiff p hp).mp (hall p hp)).1 k i hk, ?_, ?_⟩
+    · obtain ⟨p, hp, pos, o, hk⟩ := hC
+      exact ((hiff p hp).mp (hall p hp)).2.2 pos o hk
+    · obtain ⟨p, hp, i, hk⟩ := hF
+      exact ((hiff p hp).mp (hall p hp)).2.1 i hk
+  · rintro ⟨h1, h2, h3⟩ p hp
+    exact (hiff p hp).mpr ⟨h1 p hp, fun _ _ => h3, fun _ _ _ c hc => h2 c hc⟩
+
+/-- The projections of a parser in their initial state: one per accepted expression, plus the
+residue taken after all of them. -/
+def origins (es : List (Bool × List Spec)) : List Proj :=
+  (es.filterMap fun e => match (parseExpr Parser.new e).2 with
+    | .ok s => some s
+    | .error _ => none) ++ [((parserAfter Parser.new es).residue).2]
+
+/-- **lossless** for the projections of ONE parser plus its residue: expressions `es` parsed by a
+new parser (every one accepted), the residue taken afterwards, then any streams of results
+projected on them (`cur o` is the present state of the projection that started as `o`). Two results
+`r`, `r'` agree on all of them iff
+* every specific key named in any expression extracts the same value,
+* their file configurations agree outside the parser's specific config keys, and
+* their names agree with the parser's specific name keys removed. -/
+theorem lossless_parser (h : List Bytes → UInt64) (es : List (Bool × List Spec))
+    (hok : ∀ e ∈ es, ∃ pa' s, parseExpr Parser.new e = (pa', .ok s))
+    (cur : Proj → Proj)
+    (hcur : ∀ o ∈ origins es, Descends h (envOf (parserAfter Parser.new es)) o (cur o)) (r r' : Res) :
+    (∀ o ∈ origins es, agree h (envOf (parserAfter Parser.new es)) (cur o) r r') ↔
+      (∀ e ∈ es, ∀ sp ∈ e.2, isSpecific sp = true → extractD sp.key r = extractD sp.key r') ∧
+      (∀ c, c ∉ (parserAfter Parser.new es).configKeys →
+        fileValOf c r.config [] = fileValOf c r'.config []) ∧
+      fullNameExcluding (parserAfter Parser.new es).fullnameKeys r.name =
+        fullNameExcluding (parserAfter Parser.new es).fullnameKeys r'.name := by
+  -- the parser after all expressions
+  obtain ⟨_, _, o3, o4, o5⟩ := parserAfter_obs Parser.new es
+  have hexcl : (envOf (parserAfter Parser.new es)).exclude = (parserAfter Parser.new es).fullnameKeys := by
+    show (parserAfter Parser.new es).fullExt.getD _ = _
+    rw [o5]; rfl
+  -- origins are reachable, their descendants keep the closures
+  have horig : ∀ o ∈ origins es, ReachableE h (envOf (parserAfter Parser.new es)) o := by
+    intro o ho
+    simp only [origins, List.mem_append, List.mem_filterMap, List.mem_singleton] at ho
+    rcases ho with ⟨e, _, he⟩ | rfl
+    · cases hh : parseExpr Parser.new e with
+      | mk p1 r1 =>
+        rw [hh] at he
+        cases r1 with
+        | error err => simp at he
+        | ok s =>
+          simp only [Option.some.injEq] at he
+          subst he
+          unfold parseExpr at hh
+          cases hb : e.1 with
+          | false => rw [hb] at hh; exact ReachableE.parsed _ _ _ _ hh
+          | true => rw [hb] at hh; exact ReachableE.parsedWithUnit _ _ _ _ hh
+    · exact ReachableE.residue _
+  have hdesc : ∀ o ∈ origins es, (cur o).parts = o.parts ∧
+      ReachableE h (envOf (parserAfter Parser.new es)) (cur o) :=
+    fun o ho => descends_parts h _ o (cur o) (hcur o ho) (horig o ho)
+  -- each accepted expression's projection is an origin
+  have hmem : ∀ e ∈ es, ∀ pa' s, parseExpr Parser.new e = (pa', .ok s) → s ∈ origins es := by
+    intro e he pa' s hs
+    simp only [origins, List.mem_append, List.mem_filterMap]
+    exact Or.inl ⟨e, he, by rw [hs]⟩
+  have hres : ((parserAfter Parser.new es).residue).2 ∈ origins es := by simp [origins]
+  -- a part that sets a flag makes the closure exist
+  have hflag : ∀ (fl : Spec → Bool), (∀ sp x, fl sp = true → NewPart sp x → fl sp = true) →
+      ((es.flatMap fun e => execSpecs e.2).any fl = true) →
+      ∃ e ∈ es, ∃ sp ∈ e.2, fl sp = true := by
+    intro fl _ hany
+    obtain ⟨sp, hsp, hfl⟩ := List.any_eq_true.mp hany
+    obtain ⟨e, he, hspe⟩ := List.mem_flatMap.mp hsp
+    obtain ⟨pa', s, hs⟩ := hok e he
+    rw [(parseExpr_parts _ _ e s hs).2.2] at hspe
+    exact ⟨e, he, sp, hspe, hfl⟩
+  have hps : ∀ p ∈ (origins es).map cur, ReachableE h (envOf (parserAfter Parser.new es)) p := by
+    intro p hp
+    obtain ⟨o, ho, rfl⟩ := List.mem_map.mp hp
+    exact (hdesc o ho).2
+  have hC : ∃ p ∈ (origins es).map cur, ∃ pos o, Part.config pos o ∈ p.parts := by
+    cases hc : (parserAfter Parser.new es).haveConfig with
+    | false =>
+      obtain ⟨pos, o, hk⟩ := (residue_parts (parserAfter Parser.new es)).1 hc
+      exact ⟨cur _, List.mem_map_of_mem hres, pos, o, by rw [(hdesc _ hres).1]; exact hk⟩
+    | true =>
+      rw [o3] at hc
+      simp only [Parser.new, Bool.false_or] at hc
+      obtain ⟨e, he, sp, hsp, hfl⟩ := hflag hcOf (fun _ _ a _ => a) hc
+      obtain ⟨pa', s, hs⟩ := hok e he
+      obtain ⟨x, hx, hnp⟩ := (parseExpr_parts _ _ e s hs).2.1 sp hsp
+      rcases hnp with ⟨_, pos, rfl⟩ | ⟨hh, _⟩ | ⟨hh, _⟩
+      · exact ⟨cur s, List.mem_map_of_mem (hmem e he pa' s hs), pos, sp.order,
+          by rw [(hdesc s (hmem e he pa' s hs)).1]; exact hx⟩
+      · simp only [hcOf, hfOf, Bool.and_eq_true, Bool.not_eq_true'] at hfl hh
+        rw [hfl.1.2] at hh; simp at hh
+      · simp only [hcOf, isSpecific, Bool.and_eq_true, bne_iff_ne] at hfl hh
+        exact absurd (by simpa using hfl.1.2) hh.1.2
+  have hF : ∃ p ∈ (origins es).map cur, ∃ i, Part.fullname i ∈ p.parts := by
+    cases hc : (parserAfter Parser.new es).haveFullname with
+    | false =>
+      obtain ⟨i, hk⟩ := (residue_parts (parserAfter Parser.new es)).2.1 hc
+      exact ⟨cur _, List.mem_map_of_mem hres, i, by rw [(hdesc _ hres).1]; exact hk⟩
+    | true =>
+      rw [o4] at hc
+      simp only [Parser.new, Bool.false_or] at hc
+      obtain ⟨e, he, sp, hsp, hfl⟩ := hflag hfOf (fun _ _ a _ => a) hc
+      obtain ⟨pa', s, hs⟩ := hok e he
+      obtain ⟨x, hx, hnp⟩ := (parseExpr_parts _ _ e s hs).2.1 sp hsp
+      rcases hnp with ⟨hh, _⟩ | ⟨_, i, rfl⟩ | ⟨hh, _⟩
+      · simp only [hcOf, hfOf, Bool.and_eq_true, Bool.not_eq_true'] at hfl hh
+        rw [hh.1.2] at hfl; simp at hfl
+      · exact ⟨cur s, List.mem_map_of_mem (hmem e he pa' s hs), i,
+          by rw [(hdesc s (hmem e he pa' s hs)).1]; exact hx⟩
+      · simp only [hfOf, isSpecific, Bool.and_eq_true, bne_iff_ne] at hfl hh
+        exact absurd (by simpa using hfl.2) hh.2
+  have L := lossless h _ ((origins es).map cur) hps hC hF r r'
+  rw [hexcl] at L
+  constructor
+  · intro hall
+    obtain ⟨h1, h2, h3⟩ := L.mp (fun p hp => by
+      obtain ⟨o, ho, rfl⟩ := List.mem_map.mp hp
+      exact hall o ho)
+    refine ⟨?_, ?_, h3⟩
+    · intro e he sp hsp hspec
+      obtain ⟨pa', s, hs⟩ := hok e he
+      obtain ⟨x, hx, hnp⟩ := (parseExpr_parts _ _ e s hs).2.1 sp hsp
+      have hso := hmem e he pa' s hs
+      rcases hnp with ⟨hh, _⟩ | ⟨hh, _⟩ | ⟨_, i, rfl⟩
+      · simp only [hcOf, isSpecific, Bool.and_eq_true, bne_iff_ne] at hh hspec
+        exact absurd (by simpa using hh.1.2) hspec.1.2
+      · simp only [hfOf, isSpecific, Bool.and_eq_true, bne_iff_ne] at hh hspec
+        exact absurd (by simpa using hh.2) hspec.2
+      · exact h1 (cur s) (List.mem_map_of_mem hso) sp.key i (by rw [(hdesc s hso).1]; exact hx)
+    · intro c hc
+      exact h2 c (by simpa [envOf] using hc)
+  · rintro ⟨h1, h2, h3⟩ o ho
+    refine L.mpr ⟨?_, ?_, h3⟩ (cur o) (List.mem_map_of_mem ho)
+    · intro p hp k i hk
+      obtain ⟨o, ho, rfl⟩ := List.mem_map.mp hp
+      rw [(hdesc o ho).1] at hk
+      simp only [origins, List.mem_append, List.mem_filterMap, List.mem_singleton] at ho
+      rcases ho with ⟨e, he, hes⟩ | rfl
+      · cases hh : parseExpr Parser.new e with
+        | mk p1 r1 =>
+          rw [hh] at hes
+          cases r1 with
+          | error err => simp at hes
+          | ok s =>
+            simp only [Option.some.injEq] at hes
+            subst hes
+            obtain ⟨sp, hsp, hnp⟩ := (parseExpr_parts _ _ e s hh).1 _ hk
+            rcases hnp with ⟨_, _, hx⟩ | ⟨_, _, hx⟩ | ⟨hspec, j, hx⟩
+            · simp at hx
+            · simp at hx
+            · simp only [Part.key.injEq] at hx
+              rw [hx.1]
+              exact h1 e he sp hsp hspec
+      · exact absurd hk ((residue_parts _).2.2 k i)
+    · intro c hc
+      exact h2 c (by simpa [envOf] using hc)
+
+/-- **lossless**, property-text form: if moreover no individually projected config key occurs as
+an INTERNAL (non-file) entry in either result — then "every individually projected config key
+extracts the same value" + "file configurations agree elsewhere" is simply "same file
+configuration". (With an internal key such as `.file` projected individually the general form
+`lossless` is the precise statement.) -/
+theorem lossless_file_config (h : List Bytes → UInt64) (env : Env) (ps : List Proj)
+    (hps : ∀ p ∈ ps, ReachableE h env p)
+    (hC : ∃ p ∈ ps, ∃ pos o, Part.config pos o ∈ p.parts)
+    (hF : ∃ p ∈ ps, ∃ i, Part.fullname i ∈ p.parts) (r r' : Res)
+    (hkeys : ∀ c, env.configKeys.contains c = true → ∃ p ∈ ps, ∃ i, Part.key c i ∈ p.parts)
+    (hfile : ∀ c, env.configKeys.contains c = true →
+      extractD c r = fileValOf c r.config [] ∧ extractD c r' = fileValOf c r'.config []) :
+    (∀ p ∈ ps, agree h env p r r') ↔
+      (∀ p ∈ ps, ∀ k i, Part.key k i ∈ p.parts → extractD k r = extractD k r') ∧
+      (∀ c, fileValOf c r.config [] = fileValOf c r'.config []) ∧
+      fullNameExcluding env.exclude r.name = fullNameExcluding env.exclude r'.name := by
+  rw [lossless h env ps hps hC hF r r']
+  constructor
+  · rintro ⟨h1, h2, h3⟩
+    refine ⟨h1, fun c => ?_, h3⟩
+    cases hc : env.configKeys.contains c with
+    | false => exact h2 c hc
+    | true =>
+      obtain ⟨p, hp, i, hk⟩ := hkeys c hc
+      rw [← (hfile c hc).1, ← (hfile c hc).2]
+      exact h1 p hp c i hk
+  · rintro ⟨h1, h2, h3⟩
+    exact ⟨h1, fun c _ => h2 c, h3⟩
+
+/-- Excluded shape 1 (the property's side condition): with a repeated sub-name key the extractor
+sees only the first occurrence and the remaining name drops all of them, so two names that differ
+only in a later occurrence agree on `/a` and on the residue: "same value for the key" is then
+not all the information under the key. `B/a=1/a=2` vs `B/a=1/a=3`. -/
+theorem lossless_needs_distinct_subnames :
+    let n₁ : Bytes := [66, 47, 97, 61, 49, 47, 97, 61, 50]
+    let n₂ : Bytes := [66, 47, 97, 61, 49, 47, 97, 61, 51]
+    let k : Bytes := [47, 97]
+    extractD k { name := n₁, config := [], units := [] } = extractD k { name := n₂, config := [], units := [] } ∧
+    fullNameExcluding [k] n₁ = fullNameExcluding [k] n₂ ∧ n₁ ≠ n₂ := by
+  decide +kernel
+
+/-- The scenario of excluded shape 2: `Parse(".config")`, project a result with file key `a`,
+THEN `Parse("a")` and `Residue`. -/
+def interleavedWitness : Bool :=
+  let hsh : List Bytes → UInt64 := fun _ => 0
+  let cfg : Bytes := [46, 99, 111, 110, 102, 105, 103]
+  let r : Res := { name := [88], config := [([97], [49], true)], units := [] }
+  let r' : Res := { name := [88], config := [([97], [49], false)], units := [] }
+  let s1 := Parser.new.parse [{ key := cfg, order := .first }]
+  match s1.2 with
+  | .error _ => false
+  | .ok p1 =>
+    let p1a := (p1.project hsh (envOf s1.1) r).1
+    let s2 := s1.1.parse [{ key := [97], order := .first }]
+    let env := envOf (s2.1.residue).1
+    -- the right-hand side of `lossless` holds …
+    (extractD [97] r == extractD [97] r') && (env.configKeys == [[97]]) &&
+      (fullNameExcluding env.exclude r.name == fullNameExcluding env.exclude r'.name) &&
+      -- … but the two results get different keys from the first projection
+      ((p1a.project hsh env r).2 != ((p1a.project hsh env r).1.project hsh env r').2)
+
+/-- Excluded shape 2: when parsing is interleaved with projecting, a `.config` group may hold a key
+that is excluded later; then the right-hand side of `lossless` can hold (file key `a` vs internal
+key `a` with the same value) while the keys differ. `ReachableE` (one parser state for all
+projecting) rules this out. -/
+theorem lossless_interleaved_counterexample : interleavedWitness = true := by decide +kernel
+
+/-! ### The same in the vocabulary of the name specification (Model/Spec/Name.lean, property C05) -/
+
+/-- The specified value of a specific key in a result: base name, GOMAXPROCS, the text after
+`/k=` in the first part with that prefix, or the configured value. -/
+def specKeyVal (k : Bytes) (r : Res) : Bytes :=
+  if k = dotName then (Spec.Name.decomp r.name).1
+  else if k = gomaxprocsKey then Spec.Name.gomaxprocs (Spec.Name.decomp r.name).2
+  else if k.head? = some Fmt.Name.slash then Spec.Name.subname k (Spec.Name.decomp r.name).2
+  else match r.config.find? (·.1 == k) with
+    | some c => c.2.1
+    | none => []
+
+theorem extractD_spec (sp : Spec) (r : Res) (hs : isSpecific sp = true) :
+    extractD sp.key r = specKeyVal sp.key r := by
+  unfold isSpecific isErr at hs
+  simp only [Bool.and_eq_true, Bool.not_eq_true', Bool.or_eq_false_iff, bne_iff_ne, ne_eq,
+    Bool.and_eq_false_imp] at hs
+  obtain ⟨⟨⟨⟨_, _⟩, h3⟩, hc⟩, hf⟩ := hs
+  have h3' := h3 ⟨hc, hf⟩
+  simp only [beq_eq_false_iff_ne, ne_eq] at h3'
+  obtain ⟨hu, hem⟩ := h3'
+  have hne : sp.key ≠ [] := by
+    intro e; rw [e] at hem; simp at hem
+  unfold extractD specKeyVal
+  by_cases h1 : sp.key = dotName
+  · rw [h1, C05.name_key, C05.parts_eq_spec]; simp [Res.view]
+  · by_cases h2 : sp.key = gomaxprocsKey
+    · rw [h2, C05.gomaxprocs_key, C05.parts_eq_spec]
+      have : gomaxprocsKey ≠ dotName := by decide
+      simp [this, Res.view]
+    · by_cases h4 : sp.key.head? = some Fmt.Name.slash
+      · cases hk : sp.key with
+        | nil => exact absurd hk hne
+        | cons c t =>
+          rw [hk] at h4 h2 h1
+          simp only [List.head?_cons, Option.some.injEq] at h4
+          subst h4
+          rw [C05.subname_key t r.view h2, C05.parts_eq_spec]
+          simp [h1, h2, Res.view]
+      · rw [C05.config_key sp.key r.view hne h4 hc hu h1 hf]
+        simp only [h1, h2, h4, if_false, Res.view, List.find?_map]
+        cases hfind : r.config.find? ((fun x => x.1 == sp.key) ∘ fun c => (c.1, c.2.1)) with
+        | none =>
+          have : r.config.find? (fun x => x.1 == sp.key) = none := by simpa [Function.comp_def] using hfind
+          simp [this]
+        | some c =>
+          have : r.config.find? (fun x => x.1 == sp.key) = some c := by simpa [Function.comp_def] using hfind
+          simp [this]
+
+/-- **lossless** in specification terms (one parser, its accepted expressions, the residue, any
+streams): two results agree on all keys iff they have the same specified value for every specific
+key named, the same file configuration outside the specific config keys, and the same remaining
+name (`Spec.Name.fullNameExcluding`: base replaced by `*` if `.name` is individually projected, every
+part `/k=…` of an individually projected `/k` deleted, the `-N` part deleted with `/gomaxprocs`). -/
+theorem lossless_spec (h : List Bytes → UInt64) (es : List (Bool × List Spec))
+    (hok : ∀ e ∈ es, ∃ pa' s, parseExpr Parser.new e = (pa', .ok s))
+    (cur : Proj → Proj)
+    (hcur : ∀ o ∈ origins es, Descends h (envOf (parserAfter Parser.new es)) o (cur o)) (r r' : Res) :
+    (∀ o ∈ origins es, agree h (envOf (parserAfter Parser.new es)) (cur o) r r') ↔
+      (∀ e ∈ es, ∀ sp ∈ e.2, isSpecific sp = true → specKeyVal sp.key r = specKeyVal sp.key r') ∧
+      (∀ c, c ∉ (parserAfter Parser.new es).configKeys →
+        fileValOf c r.config [] = fileValOf c r'.config []) ∧
+      Spec.Name.fullNameExcluding (parserAfter Parser.new es).fullnameKeys
+          (Spec.Name.decomp r.name).1 (Spec.Name.decomp r.name).2 =
+        Spec.Name.fullNameExcluding (parserAfter Parser.new es).fullnameKeys
+          (Spec.Name.decomp r'.name).1 (Spec.Name.decomp r'.name).2 := by
+  rw [lossless_parser h es hok cur hcur r r', C05.fullname_excluding_spec, C05.fullname_excluding_spec,
+    C05.parts_eq_spec, C05.parts_eq_spec]
+  constructor
+  · rintro ⟨h1, h2, h3⟩
+    exact ⟨fun e he sp hsp hs => by rw [← extractD_spec sp r hs, ← extractD_spec sp r' hs]; exact h1 e he sp hsp hs,
+      h2, h3⟩
+  · rintro ⟨h1, h2, h3⟩
+    exact ⟨fun e he sp hsp hs => by rw [extractD_spec sp r hs, extractD_spec sp r' hs]; exact h1 e he sp hsp hs,
+      h2, h3⟩
 
 end C08
